@@ -7,7 +7,7 @@
      - on success it returns a suffix no longer than bs and its cost is at most k * (bytes consumed),
      - on failure its cost is at most k * |bs| + k,
    where the ag bound is only claimed when the 14ba147 guards are on (g_vec) and the au bound only
-   when the hypothetical remaining guards are on (g_more). WB is closed under bind; vector loops
+   when the export, name-map and byte-buffer sites are bounded as well (au_guarded, fixes 1, 3, 4). WB is closed under bind; vector loops
    add the element size to kg/ku and 1 to ks provided every element consumes at least one byte. *)
 From Verif Require Import Lib.GoInt Wasm.Leb Wasm.Decode Proofs.LebP Gen.GenWasm Gen.GenBinary.
 From Coq Require Import ZifyBool.
@@ -35,9 +35,9 @@ Section WBsec.
 Variable cf : cfg.
 
 Definition bok (k : K) (c : cost) (m : Z) : Prop :=
-  (g_vec cf = true -> ag c <= kg k * m) /\ (g_more cf = true -> au c <= ku k * m) /\ st c <= ks k * m.
+  (g_vec cf = true -> ag c <= kg k * m) /\ (au_guarded cf = true -> au c <= ku k * m) /\ st c <= ks k * m.
 Definition berr (k : K) (c : cost) (n : Z) : Prop :=
-  (g_vec cf = true -> ag c <= kg k * n + kg k) /\ (g_more cf = true -> au c <= ku k * n + ku k) /\ st c <= ks k * n + ks k.
+  (g_vec cf = true -> ag c <= kg k * n + kg k) /\ (au_guarded cf = true -> au c <= ku k * n + ku k) /\ st c <= ks k * n + ks k.
 
 Definition WB (k : K) {A} (d : dec A) : Prop := forall bs,
   match d bs with
@@ -46,10 +46,14 @@ Definition WB (k : K) {A} (d : dec A) : Prop := forall bs,
   | OutOfFuel => False
   end.
 
+Lemma au_guarded_true : au_guarded cf = true -> g_export cf = true /\ g_names cf = true /\ g_bytes cf = true.
+Proof. unfold au_guarded. destruct (g_export cf), (g_names cf), (g_bytes cf); cbn; intros; try discriminate; auto. Qed.
+
 Ltac bnd :=
   unfold bok, berr, cadd, tick, c0 in *; cbn [ag au st hot kg ku ks] in *; splits; intros;
   repeat match goal with H : ?P -> _, H' : ?P |- _ => specialize (H H') end;
-  try lia; try nia.
+  repeat match goal with H : au_guarded cf = true |- _ => apply au_guarded_true in H; destruct H as (? & ? & ?) end;
+  try congruence; try lia; try nia.
 
 (* a successful run consumes at least one byte *)
 Definition Prog {A} (d : dec A) : Prop := forall bs a r c, d bs = Ok a r c -> len r < len bs.
@@ -179,7 +183,7 @@ Qed.
 Lemma wb_bytes_u k n : Kb k -> WB k (bytes_u cf n).
 Proof.
   intros (P1&P2&P3) bs. unfold bytes_u, bind, guard, chg_u, take. pose proof (len_nonneg bs).
-  destruct (g_more cf) eqn:G; cbn [andb].
+  destruct (g_bytes cf) eqn:G; cbn [andb].
   - destruct (len bs <? n) eqn:E1.
     + bnd.
     + assert (E2 : (n <=? len bs) = true) by lia. rewrite E2.
@@ -188,16 +192,16 @@ Proof.
       * replace (Z.to_nat n) with O by lia. cbn [skipn]. bnd.
   - destruct (n <=? len bs) eqn:E2.
     + destruct (Z_le_gt_dec 0 n).
-      * rewrite len_skipn by lia. bnd; congruence.
-      * replace (Z.to_nat n) with O by lia. cbn [skipn]. bnd; congruence.
-    + bnd; congruence.
+      * rewrite len_skipn by lia. bnd.
+      * replace (Z.to_nat n) with O by lia. cbn [skipn]. bnd.
+    + bnd.
 Qed.
 
 (* the bytes returned by a successful bytes_u are n bytes when n >= 0 *)
 Lemma bytes_u_ok n bs l r c : bytes_u cf n bs = Ok l r c -> len r <= len bs /\ (0 <= n -> len l = n /\ len bs - len r = n).
 Proof.
   unfold bytes_u, bind, guard, chg_u, take. pose proof (len_nonneg bs).
-  destruct (g_more cf && (len bs <? n)); try discriminate.
+  destruct (g_bytes cf && (len bs <? n)); try discriminate.
   destruct (n <=? len bs) eqn:E; try discriminate. intros H0. inversion H0; subst.
   destruct (Z_le_gt_dec 0 n).
   - rewrite len_skipn, len_firstn by lia. lia.
@@ -284,7 +288,7 @@ Lemma wb_uvec k A site E vs (body : A -> dec A) a :
 Proof.
   intros HE Hb Hp Hk bs. destruct Hk as (P1 & P2 & P3). pose proof (len_nonneg bs).
   unfold uvec, bind, guard, chg_u.
-  destruct (g_more cf && (len bs <? vs)) eqn:G.
+  destruct (g_export cf && (len bs <? vs)) eqn:G.
   - bnd.
   - pose proof (vec_spec k A body vs a Hb Hp (conj P1 (conj P2 P3)) bs) as H0.
     destruct (vec vs body a bs) as [a' r c | c |]; [| | exact H0].
@@ -292,9 +296,28 @@ Proof.
       assert (E * vs <= E * (len bs - len r)) by (apply Z.mul_le_mono_nonneg_l; lia).
       unfold kstep in *. destruct (262144 <=? _); bnd.
     + destruct H0 as (Hg & Hu & Hs).
-      assert (g_more cf = true -> E * vs <= E * len bs).
+      assert (g_export cf = true -> E * vs <= E * len bs).
       { intros Hv. rewrite Hv in G. cbn in G. apply Z.mul_le_mono_nonneg_l; lia. }
       unfold kstep in *. destruct (262144 <=? _); bnd.
+Qed.
+
+(* a name-section map: preallocation capped by the remaining input when fix 3 is in *)
+Lemma wb_cvec k A site E vs (body : A -> dec A) a :
+  0 <= E -> (forall a, WB k (body a)) -> (forall a, Prog (body a)) -> Kpos k ->
+  WB (mkK (kg k) (ku k + E) (ks k + 1)) (cvec cf site E vs body a).
+Proof.
+  intros HE Hb Hp Hk bs. destruct Hk as (P1 & P2 & P3). pose proof (len_nonneg bs).
+  unfold cvec, bind, chg_u.
+  pose proof (vec_spec k A body vs a Hb Hp (conj P1 (conj P2 P3)) bs) as H0.
+  destruct (vec vs body a bs) as [a' r c | c |]; [| | exact H0].
+  - destruct H0 as (Hl & Hc & Hg & Hu & Hs). pose proof (len_nonneg r).
+    assert (g_names cf = true -> E * (if g_names cf then Z.min vs (len bs) else vs) <= E * (len bs - len r)).
+    { intros Hv. rewrite Hv. apply Z.mul_le_mono_nonneg_l; lia. }
+    unfold kstep in *. destruct (262144 <=? _); bnd.
+  - destruct H0 as (Hg & Hu & Hs).
+    assert (g_names cf = true -> E * (if g_names cf then Z.min vs (len bs) else vs) <= E * len bs).
+    { intros Hv. rewrite Hv. apply Z.mul_le_mono_nonneg_l; lia. }
+    unfold kstep in *. destruct (262144 <=? _); bnd.
 Qed.
 
 
@@ -456,7 +479,7 @@ Qed.
 Ltac kle := unfold Kle, Kpos, Kb, kb0 in *; cbn [kg ku ks] in *; lia.
 
 (* sections: vectors of elements *)
-Definition Ksec (k : K) : Prop := 88 <= kg k /\ 58 <= ku k /\ (g_more cf = true -> locals_max cf + 1 <= ku k) /\ 3 <= ks k.
+Definition Ksec (k : K) : Prop := 88 <= kg k /\ 58 <= ku k /\ (au_guarded cf = true -> locals_max cf + 1 <= ku k) /\ 3 <= ks k.
 
 Lemma wb_type_section k : Ksec k -> WB k (type_section cf).
 Proof.
@@ -498,6 +521,14 @@ Proof.
 Qed.
 
 (* element section: vector of segments, each holding a guarded vector of 4-byte indices *)
+Lemma wb_cvec' k k0 A site E vs (body : A -> dec A) a :
+  0 <= E -> (forall a, WB k0 (body a)) -> (forall a, Prog (body a)) -> Kpos k0 ->
+  Kle (mkK (kg k0) (ku k0 + E) (ks k0 + 1)) k -> WB k (cvec cf site E vs body a).
+Proof.
+  intros HE Hb Hp Hk Hle. eapply wb_mono; [exact Hle | | apply wb_cvec; assumption].
+  unfold Kpos in *. cbn [kg ku ks]. lia.
+Qed.
+
 Definition kb1 : K := mkK 4 1 1.
 Lemma wb_init_vec k : Kle kb1 k -> WB k (init_vec cf).
 Proof.
@@ -551,18 +582,18 @@ Definition kn2 : K := mkK 0 57 2.
 Lemma wb_function_names k : Kle kn1 k -> WB k (function_names cf).
 Proof.
   intros Hk. unfold function_names. apply wb_bind; [apply wb_u32; unfold kn1 in *; kle | intro c].
-  apply wb_uvec' with (k0 := kb0); [lia | intro; apply wb_name_assoc; apply kb0_b | intro; apply prog_name_assoc | apply kb0_p | unfold kn1 in *; kle].
+  apply wb_cvec' with (k0 := kb0); [lia | intro; apply wb_name_assoc; apply kb0_b | intro; apply prog_name_assoc | apply kb0_p | unfold kn1 in *; kle].
 Qed.
 Lemma wb_local_names k : Kle kn2 k -> WB k (local_names cf).
 Proof.
   intros Hk. unfold local_names. apply wb_bind; [apply wb_u32; unfold kn2 in *; kle | intro c].
-  apply wb_uvec' with (k0 := kn1); [lia | | | unfold kn1; kle | unfold kn1, kn2 in *; kle].
+  apply wb_cvec' with (k0 := kn1); [lia | | | unfold kn1; kle | unfold kn1, kn2 in *; kle].
   - intros _. apply wb_bind; [apply wb_u32; unfold kn1; kle | intros _].
     apply wb_bind; [apply wb_u32; unfold kn1; kle | intro lc].
-    apply wb_uvec' with (k0 := kb0); [lia | intro; apply wb_name_assoc; apply kb0_b | intro; apply prog_name_assoc | apply kb0_p | unfold kn1; kle].
+    apply wb_cvec' with (k0 := kb0); [lia | intro; apply wb_name_assoc; apply kb0_b | intro; apply prog_name_assoc | apply kb0_p | unfold kn1; kle].
   - intros _. eapply prog_bind with (k := kn1); [apply prog_u32 | intros _].
     apply wb_bind; [apply wb_u32; unfold kn1; kle | intro lc].
-    apply wb_uvec' with (k0 := kb0); [lia | intro; apply wb_name_assoc; apply kb0_b | intro; apply prog_name_assoc | apply kb0_p | unfold kn1; kle].
+    apply wb_cvec' with (k0 := kb0); [lia | intro; apply wb_name_assoc; apply kb0_b | intro; apply prog_name_assoc | apply kb0_p | unfold kn1; kle].
 Qed.
 Hint Resolve wb_function_names wb_local_names : wb.
 
@@ -600,17 +631,27 @@ Hint Resolve wb_name_section : wb.
 
 Lemma wb_custom_data k limit : Kb k -> WB k (custom_data cf limit).
 Proof.
-  intros (P1&P2&P3) bs. unfold custom_data, bind, guard, chg_u, read_once. pose proof (len_nonneg bs).
-  destruct (g_more cf) eqn:G; cbn [andb].
+  intros (P1&P2&P3) bs. unfold custom_data, bind, guard, chg_u, read_once, take, ret. pose proof (len_nonneg bs).
+  destruct (g_bytes cf) eqn:G; cbn [andb].
   - destruct (len bs <? limit) eqn:E1; [bnd |].
-    destruct bs as [| b t]; [rewrite len_nil in *; bnd |].
-    destruct (Z_le_gt_dec 0 limit).
-    + rewrite len_skipn by lia. replace (Z.min limit (len (b :: t))) with limit by lia. bnd.
-    + replace (Z.to_nat (Z.min limit (len (b :: t)))) with O by lia. cbn [skipn]. bnd.
-  - destruct bs as [| b t]; [rewrite len_nil in *; bnd; congruence |].
-    destruct (Z_le_gt_dec 0 limit).
-    + rewrite len_skipn by lia. bnd; congruence.
-    + replace (Z.to_nat (Z.min limit (len (b :: t)))) with O by lia. cbn [skipn]. bnd; congruence.
+    destruct (fix_custom cf).
+    + assert (E2 : (limit <=? len bs) = true) by lia. rewrite E2.
+      destruct (Z_le_gt_dec 0 limit).
+      * rewrite len_skipn by lia. bnd.
+      * replace (Z.to_nat limit) with O by lia. cbn [skipn]. bnd.
+    + destruct bs as [| b t]; [rewrite len_nil in *; bnd |].
+      destruct (Z_le_gt_dec 0 limit).
+      * rewrite len_skipn by lia. replace (Z.min limit (len (b :: t))) with limit by lia. bnd.
+      * replace (Z.to_nat (Z.min limit (len (b :: t)))) with O by lia. cbn [skipn]. bnd.
+  - destruct (fix_custom cf).
+    + destruct (limit <=? len bs) eqn:E2; [| bnd].
+      destruct (Z_le_gt_dec 0 limit).
+      * rewrite len_skipn by lia. bnd.
+      * replace (Z.to_nat limit) with O by lia. cbn [skipn]. bnd.
+    + destruct bs as [| b t]; [rewrite len_nil in *; bnd |].
+      destruct (Z_le_gt_dec 0 limit).
+      * rewrite len_skipn by lia. bnd.
+      * replace (Z.to_nat (Z.min limit (len (b :: t)))) with O by lia. cbn [skipn]. bnd.
 Qed.
 Hint Resolve wb_custom_data : wb.
 Lemma wb_custom_section k size s : Kle kn3 k -> WB k (custom_section cf size s).
@@ -686,7 +727,7 @@ Qed.
 Lemma bytes_u_neg n bs l r c : bytes_u cf n bs = Ok l r c -> n < 0 -> l = [].
 Proof.
   unfold bytes_u, bind, guard, chg_u, take.
-  destruct (g_more cf && (len bs <? n)); try discriminate.
+  destruct (g_bytes cf && (len bs <? n)); try discriminate.
   destruct (n <=? len bs); try discriminate. intros H0 Hn. inversion H0; subst.
   replace (Z.to_nat n) with O by lia. reflexivity.
 Qed.
@@ -708,7 +749,7 @@ Proof.
   - rewrite Hneg in Ec by lia. cbn in Ec. discriminate.
 Qed.
 
-Definition Kcode (k : K) : Prop := 0 <= kg k /\ 1 <= ku k /\ (g_more cf = true -> locals_max cf + 1 <= ku k) /\ 1 <= ks k.
+Definition Kcode (k : K) : Prop := 0 <= kg k /\ 1 <= ku k /\ (au_guarded cf = true -> locals_max cf + 1 <= ku k) /\ 1 <= ks k.
 
 Lemma wb_code_tail k ls rem sum : Kcode k -> WB k (code_tail cf ls rem sum).
 Proof.
@@ -729,7 +770,7 @@ Proof.
   intros H0. inversion H0; subst. apply (code_rest_ok ls rem bs b r c' E).
 Qed.
 
-Definition Kcode2 (k : K) : Prop := 0 <= kg k /\ 1 <= ku k /\ (g_more cf = true -> locals_max cf + 1 <= ku k) /\ 2 <= ks k.
+Definition Kcode2 (k : K) : Prop := 0 <= kg k /\ 1 <= ku k /\ (au_guarded cf = true -> locals_max cf + 1 <= ku k) /\ 2 <= ks k.
 
 Lemma wb_code_entry k : Kcode2 k -> WB k (code_entry cf).
 Proof.
@@ -809,7 +850,7 @@ Qed.
 Lemma wb_header k : Kpos k -> WB k header.
 Proof. intros Hk. unfold header. wb. Qed.
 
-Definition Kmod (k : K) : Prop := 88 <= kg k /\ 58 <= ku k /\ (g_more cf = true -> locals_max cf + 1 <= ku k) /\ 4 <= ks k.
+Definition Kmod (k : K) : Prop := 88 <= kg k /\ 58 <= ku k /\ (au_guarded cf = true -> locals_max cf + 1 <= ku k) /\ 4 <= ks k.
 
 Lemma wb_DecodeModule k : Kmod k -> WB k (DecodeModule cf).
 Proof.
@@ -839,30 +880,38 @@ Proof.
   - destruct H as (_ & _ & Hs). unfold k in Hs; cbn [ks] in Hs. cbn [cost_of out_of_fuel]. split; [reflexivity | lia].
 Qed.
 
-(* HEAD (guards of 14ba147 only): what the twelve guarded sites request is linear in the input *)
-Lemma alloc_linear_guarded_sites : forall bs, ag (cost_of (DecodeModule coded bs)) <= 88 * len bs + 88.
+(* whenever the 14ba147 guards are on: what the twelve guarded sites request is linear in the input *)
+Lemma alloc_linear_guarded_sites : forall cf bs, g_vec cf = true -> ag (cost_of (DecodeModule cf bs)) <= 88 * len bs + 88.
 Proof.
-  intros bs. pose (k := mkK 88 58 4).
-  assert (Hk : Kmod coded k) by (unfold Kmod, k; cbn [kg ku ks g_more coded]; splits; try lia; intros Hf; discriminate Hf).
-  pose proof (wb_DecodeModule coded k Hk bs) as H. pose proof (len_nonneg bs).
-  destruct (DecodeModule coded bs) as [a r c | c |]; [| | contradiction].
-  - destruct H as (Hl & Hg & _ & _). pose proof (len_nonneg r). specialize (Hg eq_refl). unfold k in Hg; cbn [kg] in Hg. cbn [cost_of]. lia.
-  - destruct H as (Hg & _ & _). specialize (Hg eq_refl). unfold k in Hg; cbn [kg] in Hg. cbn [cost_of]. lia.
+  intros cf bs Hv. pose (k := mkK 88 (Z.max 58 (locals_max cf + 1)) 4).
+  assert (Hk : Kmod cf k) by (unfold Kmod, k; cbn [kg ku ks]; splits; lia).
+  pose proof (wb_DecodeModule cf k Hk bs) as H. pose proof (len_nonneg bs).
+  destruct (DecodeModule cf bs) as [a r c | c |]; [| | contradiction].
+  - destruct H as (Hl & Hg & _ & _). pose proof (len_nonneg r). specialize (Hg Hv). unfold k in Hg; cbn [kg] in Hg. cbn [cost_of]. lia.
+  - destruct H as (Hg & _ & _). specialize (Hg Hv). unfold k in Hg; cbn [kg] in Hg. cbn [cost_of]. lia.
 Qed.
 
-(* a decoder that also guards the remaining sites and limits the locals of one function to L *)
-Lemma alloc_linear_repaired : forall L bs, 0 <= L ->
-  ag (cost_of (DecodeModule (repaired L) bs)) + au (cost_of (DecodeModule (repaired L) bs)) <= (146 + L) * len bs + (146 + L).
+(* with fixes 1, 3 and 4 in (any configuration with g_vec and au_guarded) the whole modelled allocation is
+   linear, the constant being 146 plus the largest accepted number of locals of one function *)
+Lemma alloc_linear_all_sites : forall cf bs, g_vec cf = true -> au_guarded cf = true -> 0 <= locals_max cf ->
+  ag (cost_of (DecodeModule cf bs)) + au (cost_of (DecodeModule cf bs)) <= (146 + locals_max cf) * len bs + (146 + locals_max cf).
 Proof.
-  intros L bs HL. pose (k := mkK 88 (58 + L) 4).
-  assert (Hk : Kmod (repaired L) k) by (unfold Kmod, k; cbn [kg ku ks g_more locals_max repaired]; splits; try lia).
-  pose proof (wb_DecodeModule (repaired L) k Hk bs) as H. pose proof (len_nonneg bs).
-  destruct (DecodeModule (repaired L) bs) as [a r c | c |]; [| | contradiction].
-  - destruct H as (Hl & Hg & Hu & _). pose proof (len_nonneg r). specialize (Hg eq_refl). specialize (Hu eq_refl).
+  intros cf bs Hv Ha HL. pose (k := mkK 88 (58 + locals_max cf) 4).
+  assert (Hk : Kmod cf k) by (unfold Kmod, k; cbn [kg ku ks]; splits; try lia).
+  pose proof (wb_DecodeModule cf k Hk bs) as H. pose proof (len_nonneg bs).
+  destruct (DecodeModule cf bs) as [a r c | c |]; [| | contradiction].
+  - destruct H as (Hl & Hg & Hu & _). pose proof (len_nonneg r). specialize (Hg Hv). specialize (Hu Ha).
     unfold k in *; cbn [kg ku] in *. cbn [cost_of]. nia.
-  - destruct H as (Hg & Hu & _). specialize (Hg eq_refl). specialize (Hu eq_refl).
+  - destruct H as (Hg & Hu & _). specialize (Hg Hv). specialize (Hu Ha).
     unfold k in *; cbn [kg ku] in *. cbn [cost_of]. nia.
 Qed.
+
+Lemma alloc_linear_coded : forall bs, ag (cost_of (DecodeModule coded bs)) <= 88 * len bs + 88.
+Proof. intros bs. apply alloc_linear_guarded_sites. reflexivity. Qed.
+
+Lemma alloc_linear_repaired : forall L bs, 0 <= L ->
+  ag (cost_of (DecodeModule (repaired L) bs)) + au (cost_of (DecodeModule (repaired L) bs)) <= (146 + L) * len bs + (146 + L).
+Proof. intros L bs HL. apply (alloc_linear_all_sites (repaired L) bs eq_refl eq_refl HL). Qed.
 
 (* closed witnesses *)
 Definition hdr : list Z := [0; 0x61; 0x73; 0x6d; 1; 0; 0; 0].
@@ -872,45 +921,53 @@ Definition in_type_2p24 : list Z := hdr ++ [1; 4; 0x80; 0x80; 0x80; 0x08].
 Lemma amplification_before_fix :
   len in_type_2p24 = 14 /\ 80 * 2 ^ 24 <= ag (cost_of (DecodeModule before_fix in_type_2p24)).
 Proof. split; [reflexivity | apply Z.leb_le; vm_compute; reflexivity]. Qed.
-Lemma guard_effective : ag (cost_of (DecodeModule coded in_type_2p24)) = 0 /\ au (cost_of (DecodeModule coded in_type_2p24)) = 0.
+Lemma guard_effective :
+  ag (cost_of (DecodeModule found_at_7267a3c in_type_2p24)) = 0 /\ au (cost_of (DecodeModule found_at_7267a3c in_type_2p24)) = 0.
 Proof. split; vm_compute; reflexivity. Qed.
 
-(* HEAD still: the export vector, the locals of a VALID module, a name-section map, a byte buffer *)
+(* /repo at 7267a3c: the export vector, the locals of a VALID module, a name-section map, a byte buffer *)
 Definition in_export_max : list Z := hdr ++ [7; 5; 0xff; 0xff; 0xff; 0xff; 0x0f].
 Definition in_locals_max : list Z :=
   hdr ++ [1; 4; 1; 0x60; 0; 0] ++ [3; 2; 1; 0] ++ [10; 10; 1; 8; 1; 0xff; 0xff; 0xff; 0xff; 0x0f; 0x7f; 0x0b].
 Definition in_names_max : list Z := hdr ++ [0; 11; 4; 0x6e; 0x61; 0x6d; 0x65; 1; 5; 0xff; 0xff; 0xff; 0xff; 0x0f].
 Definition in_data_max : list Z := hdr ++ [11; 10; 1; 0; 0x41; 0; 0x0b; 0xff; 0xff; 0xff; 0xff; 0x0f].
 Lemma amplification_remaining :
-  (len in_export_max = 15 /\ 56 * (2 ^ 32 - 1) <= au (cost_of (DecodeModule coded in_export_max))) /\
-  (len in_locals_max = 30 /\ accepted (DecodeModule coded in_locals_max) = true /\
-     2 ^ 32 - 1 <= au (cost_of (DecodeModule coded in_locals_max))) /\
-  (len in_names_max = 22 /\ 24 * (2 ^ 32 - 1) <= au (cost_of (DecodeModule coded in_names_max))) /\
-  (len in_data_max = 20 /\ 2 ^ 32 - 1 <= au (cost_of (DecodeModule coded in_data_max))).
+  (len in_export_max = 15 /\ 56 * (2 ^ 32 - 1) <= au (cost_of (DecodeModule found_at_7267a3c in_export_max))) /\
+  (len in_locals_max = 30 /\ accepted (DecodeModule found_at_7267a3c in_locals_max) = true /\
+     2 ^ 32 - 1 <= au (cost_of (DecodeModule found_at_7267a3c in_locals_max))) /\
+  (len in_names_max = 22 /\ 24 * (2 ^ 32 - 1) <= au (cost_of (DecodeModule found_at_7267a3c in_names_max))) /\
+  (len in_data_max = 20 /\ 2 ^ 32 - 1 <= au (cost_of (DecodeModule found_at_7267a3c in_data_max))).
 Proof.
   splits; try reflexivity; try (apply Z.leb_le; vm_compute; reflexivity).
 Qed.
-(* and the hypothetical guards remove all four *)
-Lemma repaired_effective :
-  au (cost_of (DecodeModule (repaired 50000) in_export_max)) = 0 /\
-  accepted (DecodeModule (repaired 50000) in_locals_max) = false /\ au (cost_of (DecodeModule (repaired 50000) in_locals_max)) = 0 /\
-  au (cost_of (DecodeModule (repaired 50000) in_names_max)) <= 4 /\
-  au (cost_of (DecodeModule (repaired 50000) in_data_max)) = 0.
-Proof. splits; try (vm_compute; reflexivity). apply Z.leb_le; vm_compute; reflexivity. Qed.
+(* with the patches of notes/fix-c03-{1,3,4}.patch three of the four are gone; the locals remain (open finding) *)
+Lemma after_fixes :
+  au (cost_of (DecodeModule (repaired 4294967295) in_export_max)) = 0 /\
+  au (cost_of (DecodeModule (repaired 4294967295) in_names_max)) <= 24 /\
+  au (cost_of (DecodeModule (repaired 4294967295) in_data_max)) = 0 /\
+  accepted (DecodeModule (repaired 4294967295) in_locals_max) = true /\
+  2 ^ 32 - 1 <= au (cost_of (DecodeModule (repaired 4294967295) in_locals_max)) /\
+  accepted (DecodeModule (repaired 50000) in_locals_max) = false /\ au (cost_of (DecodeModule (repaired 50000) in_locals_max)) = 0.
+Proof. splits; try (vm_compute; reflexivity); apply Z.leb_le; vm_compute; reflexivity. Qed.
 
-(* decoder corner found while modelling: a custom section with an empty payload is rejected when it
-   is the last section (decodeCustomSection's single r.Read hits io.EOF) and accepted elsewhere *)
+(* decoder corner found while modelling: on 7267a3c a custom section with an empty payload is rejected when it
+   is the last section (decodeCustomSection's single r.Read hits io.EOF) and accepted elsewhere; with
+   notes/fix-c03-5.patch it is accepted in both places *)
 Definition in_custom_empty_last : list Z := hdr ++ [1; 4; 1; 0x60; 0; 0] ++ [0; 2; 1; 0x61].
 Definition in_custom_empty_mid : list Z := hdr ++ [0; 2; 1; 0x61] ++ [1; 4; 1; 0x60; 0; 0].
-Lemma custom_empty_payload_as_coded :
-  accepted (DecodeModule coded in_custom_empty_last) = false /\ accepted (DecodeModule coded in_custom_empty_mid) = true.
-Proof. split; vm_compute; reflexivity. Qed.
+Lemma custom_empty_payload :
+  accepted (DecodeModule found_at_7267a3c in_custom_empty_last) = false /\
+  accepted (DecodeModule found_at_7267a3c in_custom_empty_mid) = true /\
+  accepted (DecodeModule (repaired 4294967295) in_custom_empty_last) = true /\
+  accepted (DecodeModule (repaired 4294967295) in_custom_empty_mid) = true.
+Proof. splits; vm_compute; reflexivity. Qed.
 
 (* non-vacuity: a small complete module (type, function, export, code with two local groups, name section) *)
 Definition in_small_valid : list Z :=
   hdr ++ [1; 5; 1; 0x60; 0; 1; 0x7f] ++ [3; 2; 1; 0] ++ [7; 5; 1; 1; 0x66; 0; 0] ++
   [10; 10; 1; 8; 2; 1; 0x7f; 2; 0x7e; 0x41; 0; 0x0b] ++ [0; 9; 4; 0x6e; 0x61; 0x6d; 0x65; 0; 2; 1; 0x6d].
 Example small_valid_accepted :
-  accepted (DecodeModule coded in_small_valid) = true /\ st (cost_of (DecodeModule coded in_small_valid)) = 14 /\
-  accepted (DecodeModule (repaired 50000) in_small_valid) = true /\ accepted (DecodeModule before_fix in_small_valid) = true.
+  accepted (DecodeModule found_at_7267a3c in_small_valid) = true /\ st (cost_of (DecodeModule found_at_7267a3c in_small_valid)) = 14 /\
+  accepted (DecodeModule (repaired 50000) in_small_valid) = true /\ accepted (DecodeModule before_fix in_small_valid) = true /\
+  accepted (DecodeModule coded in_small_valid) = true.
 Proof. splits; vm_compute; reflexivity. Qed.
